@@ -41,7 +41,10 @@ EvalX(nodes, n, tags) == LET x == nodes[n] IN
      [] x.op = "and"  -> EvalX(nodes, x.a, tags) /\ EvalX(nodes, x.b, tags)
      [] x.op = "or"   -> EvalX(nodes, x.a, tags) \/ EvalX(nodes, x.b, tags)
 OwnMatch(r, el) == r.x.match[el]                              \* tag selection decided by the specification
-Sel(r, s) == r.x.match[s]
+\* a scenario is selected if its effective tags satisfy the expression and no hook excluded it (or an enclosing
+\* feature / rule) at run time; SelBefore: the same without the scenario's own before_scenario hook
+Sel(r, s) == r.x.match[s] /\ ~r.x.hskip[s]
+SelBefore(r, s) == r.x.match[s] /\ ~r.x.askip[s]
 
 \* clause id with the defect family it belongs to ("none" = no known family)
 Fam(clause, family) == IF family = "none" THEN clause ELSE clause \o "/" \o family
@@ -107,8 +110,13 @@ Enrich(r0) ==
        I == DOMAIN E
        atts(el) == {E[i].att : i \in {j \in I : E[j].k = "attempt" /\ E[j].el = el}}      \* only recorded under autoretry
        last == [el \in els |-> IF atts(el) = {} THEN 1 ELSE CHOOSE a \in atts(el) : \A b \in atts(el) : b <= a]
-   IN [prog |-> r0.prog, cfg |-> r0.cfg, events |-> r0.events, end |-> r0.end, base |-> r0.base,
+       \* skip entries whose hook really ran
+       done(k) == \E i \in I : E[i].k = "hook" /\ E[i].name = r0.skips[k].name /\ E[i].el = r0.skips[k].el
+       skipped == {r0.skips[k].el : k \in {j \in DOMAIN r0.skips : done(j)}}
+   IN [prog |-> r0.prog, cfg |-> r0.cfg, skips |-> r0.skips, events |-> r0.events, end |-> r0.end, base |-> r0.base,
        x |-> [anc |-> anc, eff |-> eff,
+              hskip |-> [el \in els |-> (({el} \cup anc[el]) \cap skipped) # {}],
+              askip |-> [el \in els |-> (anc[el] \cap skipped) # {}],
               desc |-> [el \in els |-> {y \in els : el \in anc[y]}],
               match |-> [el \in els |-> EvalX(r0.cfg.nodes, r0.cfg.root, eff[el])],
               last |-> last,
@@ -149,7 +157,8 @@ C02Scenario(r, s) ==
        okLen == Len(st) = n
        \* first position that does not pass among the positions that were started (before_step seen or reached undefined)
        skipAt(p) == Called(r, s, p) /\ OutcomeLast(r, s, p) = "skip" /\ ~StepHookRaised(r, s, p) /\ ~LookupFails(r, s, p)
-       started(p) == BeforeStepSeen(r, s, p) \/ (\E i \in Ix(r) : Ev(r, i).k = "fmt" /\ Ev(r, i).name = "result" /\ Ev(r, i).el = s /\ Ev(r, i).pos = p /\ Ev(r, i).status = "undefined")
+       started(p) == BeforeStepSeen(r, s, p) \/ (\E i \in Ix(r) : Ev(r, i).k = "fmt" /\ Ev(r, i).name = "result" /\ Ev(r, i).el = s /\ Ev(r, i).pos = p
+                                                                   /\ Ev(r, i).status = "undefined" /\ Ev(r, i).att = LastAtt(r, s))
    IN
    IF <<s, 0>> \in r.x.shr      \* a hook of a nested sub-step raised: order and dry-run clauses only
    THEN (IF \E a, b \in DOMAIN calls : a < b /\ Ev(r, calls[a]).pos >= Ev(r, calls[b]).pos THEN {"C02.order"} ELSE {})
@@ -234,7 +243,8 @@ C09(r) ==
    (IF \E el \in Els(r) : r.end.eff[el] # <<>> /\ Rng(r.end.eff[el]) # EffT(r, el) THEN {"C09.effective"} ELSE {})
    \* nothing of a scenario that is not selected executes
    \cup (IF \E i \in Ix(r) : LET e == Ev(r, i) IN
-              /\ e.k \in {"hook", "step"} /\ e.el # 0 /\ Kind(r, e.el) = "scenario" /\ ~Sel(r, e.el)
+              /\ e.el # 0 /\ Kind(r, e.el) = "scenario"
+              /\ ((e.k = "hook" /\ ~IsStepHook(e) /\ ~SelBefore(r, e.el)) \/ ((e.k = "step" \/ IsStepHook(e)) /\ ~Sel(r, e.el)))
          THEN {"C09.exec_only_selected"} ELSE {})
    \* a selected scenario that is reached executes
    \cup (IF Ran(r) /\ ~r.cfg.dry /\ ~Cut(r) /\ NoHookFault(r) /\ \E s \in Scens(r) : Sel(r, s) /\ ~Executed(r, s)
@@ -242,7 +252,9 @@ C09(r) ==
    \* every other scenario is reported skipped with all its steps skipped
    \cup (IF Ran(r) /\ \E s \in Scens(r) : ~Sel(r, s) /\
               (IF ~Cut(r) /\ NoHookFault(r) THEN r.end.status[s] # "skipped" \/ Rng(r.end.step_status[s]) \ {"skipped"} # {}
-               ELSE r.end.status[s] \notin {"skipped", "untested"})
+               ELSE r.end.status[s] \notin ({"skipped", "untested"} \cup
+                                             \* (excluded by its own before_scenario hook: its after hooks still run and may raise)
+                                             (IF SelBefore(r, s) /\ OwnHookRaised(r, s) THEN {"hook_error"} ELSE {})))
          THEN {"C09.unselected_skipped"} ELSE {})
    \* a non-empty feature / rule / outline none of whose scenarios is selected ends up skipped
    \cup (IF Ran(r) /\ ~Cut(r) /\ NoHookFault(r) /\ \E c \in Els(r) : Kind(r, c) # "scenario" /\ ScensUnder(r, c) # {}
@@ -330,12 +342,15 @@ C12(r) ==
             /\ (\E i \in Ix(r) : Ev(r, i).k = "step" \/ (IsHook(Ev(r, i)) /\ HKind(Ev(r, i).name) \notin {"all"}))
          THEN {"C12.before_all_aborts"} ELSE {})
    \* no hooks for elements that are neither selected by their own tags nor contain a selected scenario
+   \* ... nor for elements below a feature / rule that one of its hooks excluded at run time
    \cup (IF \E i \in Ix(r) : LET e == Ev(r, i) IN IsHook(e) /\ e.el # 0 /\
-              ~OwnMatch(r, e.el) /\ (\A s \in ScensUnder(r, e.el) : ~Sel(r, s))
+              \/ (~OwnMatch(r, e.el) /\ (\A s \in ScensUnder(r, e.el) : ~r.x.match[s]))
+              \/ r.x.askip[e.el]
          THEN {"C12.not_for_skipped"} ELSE {})
    \cup (IF r.cfg.dry /\ \E i \in Ix(r) : IsHook(Ev(r, i)) THEN {"C12.not_in_dry_run"} ELSE {})
    \* --stop still stops at the first failure: after a hook of an element raised no other element is started
-   \cup (IF r.cfg.stop /\ \E i, j \in Ix(r) : i < j /\ IsHook(Ev(r, i)) /\ Ev(r, i).raised /\ Ev(r, i).el # 0
+   \* (not under auto-retry, where a failed attempt is forgiven)
+   \cup (IF r.cfg.stop /\ ~r.cfg.retry /\ \E i, j \in Ix(r) : i < j /\ IsHook(Ev(r, i)) /\ Ev(r, i).raised /\ Ev(r, i).el # 0
               /\ IsHook(Ev(r, j)) /\ Ev(r, j).name \in {"before_feature", "before_rule", "before_scenario"}
               /\ Ev(r, j).el # Ev(r, i).el
          THEN {"C12.stop_stops"} ELSE {})
